@@ -5,6 +5,7 @@ package router
 // each run in a virtual-time bubble up to t = 20 s.
 
 import (
+	"bytes"
 	"crypto/tls"
 	"fmt"
 	"os"
@@ -17,6 +18,7 @@ import (
 	"github.com/IrineSistiana/mosproxy/internal/zzverif/env"
 	"github.com/IrineSistiana/mosproxy/internal/zzverif/refdns"
 	"github.com/IrineSistiana/mosproxy/internal/zzverif/report"
+	"github.com/valyala/fasthttp"
 )
 
 type c03Query struct {
@@ -257,6 +259,82 @@ func c03Scenario(c *choice.Ctx, rep *report.R, queries []c03Query) {
 	}
 	rep.Eval(desc + "=>" + obs)
 	rep.State(fmt.Sprintf("%s|%s|%d|%s", seam.name, rule, wantRcode, obs))
+}
+
+// c03Cached: the response to a query that is answered from the cache obeys the same header rules. Every seam; a first client
+// fetches the answer, a second client (other id, RD as chosen, same or case-variant name) is then served without the upstream.
+func c03Cached(c *choice.Ctx, rep *report.R) {
+	own := env.InstallOwn(0xA5, vRace)
+	defer env.UninstallOwn()
+	seam := c03Seams[c.Choose(len(c03Seams), "seam")]
+	rd := c.Choose(2, "second-query-rd") == 1
+	variant := c.Choose(2, "second-query-case-variant") == 1
+	desc := fmt.Sprintf("cached: seam=%s second query rd=%v case-variant=%v", seam.name, rd, variant)
+	fail := func(sig, msg string) {
+		rep.Violate("C03:"+seam.name+":cached:"+sig, msg+"\n  "+desc, map[string]any{"Choices": c.Choices(), "Cached": true})
+	}
+	cfg := c03Config("forward")
+	cfg.Cache.MemSize = 1 << 20
+	v, err := vNewRouter(cfg, "u1")
+	if err != nil {
+		fail("router-start", err.Error())
+		return
+	}
+	defer v.Close()
+	u := v.ups["u1"]
+	u.Auto = func(q *upQuery) *upResult {
+		if q.Msg == nil {
+			return &upResult{err: errScripted}
+		}
+		return &upResult{wire: env.Answer(q.Msg, 1, 60).Encode(false)}
+	}
+	q1 := refdns.Query(0x0301, refdns.N("cached", "example", "test"), 1, 1)
+	q1.Bits |= refdns.BitRD
+	cl1 := seam.open(v)
+	cl1.send(q1)
+	wait()
+	hsleep(100 * time.Millisecond)
+	wait()
+	if rs, _ := cl1.responses(); len(rs) != 1 || rs[0] == nil || rs[0].RCode() != 0 {
+		fail("setup", fmt.Sprintf("first fetch: %d responses", len(rs)))
+		return
+	}
+	cl1.close()
+	name := refdns.N("cached", "example", "test")
+	if variant {
+		name = refdns.N("CacheD", "Example", "TEST")
+	}
+	q2 := refdns.Query(0xBEEF, name, 1, 1)
+	if rd {
+		q2.Bits |= refdns.BitRD
+	}
+	before := len(u.Queries())
+	cl2 := seam.open(v)
+	cl2.send(q2)
+	wait()
+	hsleep(100 * time.Millisecond)
+	wait()
+	rs, raw := cl2.responses()
+	obs := fmt.Sprintf("%d", len(rs))
+	switch {
+	case len(rs) != 1:
+		fail("response-count", fmt.Sprintf("%d responses to the second query", len(rs)))
+	case rs[0] == nil:
+		fail("undecodable-response", fmt.Sprintf("%x", raw[0]))
+	default:
+		for _, b := range c03CheckResponse(q2, rs[0], 0) {
+			fail("bad-response:"+strings.SplitN(b, " ", 2)[0], b+fmt.Sprintf(" (served from the cache: %v)\n  response %s", len(u.Queries()) == before, rs[0].Canon()))
+		}
+		obs += fmt.Sprintf("/%v", len(u.Queries()) == before)
+	}
+	cl2.close()
+	v.Close()
+	wait()
+	for _, x := range own.Audit() {
+		fail("ownership", x)
+	}
+	rep.Eval(desc + "=>" + obs)
+	rep.State(desc)
 }
 
 func c09Answer(q *refdns.Msg, n int) *refdns.Msg { return c09AnswerT(q, n, 240, 0) }
@@ -837,6 +915,13 @@ var c03Seams = []c03Seam{
 		h := v.newFastHTTPHandler()
 		return &c03HTTP{do: func(w []byte) *httpResult { return vFastDoHRequest(h, "POST", w, vClientV4, nil) }}
 	}},
+	{"fasthttp-post-chunked", func(v *vRouter) c03Client {
+		// a POST without Content-Length (Transfer-Encoding: chunked): the body stream has no announced size
+		h := v.newFastHTTPHandler()
+		return &c03HTTP{do: func(w []byte) *httpResult {
+			return vFastDoHRequest(h, "POST", w, vClientV4, func(r *fasthttp.Request) { r.SetBodyStream(bytes.NewReader(w), -1) })
+		}}
+	}},
 	{"quic", func(v *vRouter) c03Client {
 		return &c03Quic{v.quicStream(v.newQuicServer(), vClientV4, vLocalV4)}
 	}},
@@ -861,20 +946,25 @@ func TestVerifC03(t *testing.T) {
 		"observed at t=0, 6s, 6.05s, 20s on the exact virtual clock; oracle: exactly one response, by 6s+50ms, id/opcode/RD copied, QR=RA=1, <=1 question equal to the first question, rcode per reference decision table; ownership audit; "+
 		"plus, on every seam, a query advertising 65535 octets whose upstream answer is composed (listener encoding measured by two probes) so that the complete response is exactly 65500..65535 octets, one by one: exactly one well-formed response within 6.05 s, and an ordinary query afterwards is answered too; 2..3 queries arriving in one read on the tcp and gnet handlers, answered in either order: one matching response each; "+
 		"plus, on the tcp, tls (DoT over crypto/tls) and quic connection handlers with idle_timeout 2 s, one connection kept in use for four idle timeouts with a query every {0.5, 1.5, 1.9} s: every query answered, connection never closed under the client; "+
-		"plus 65576 sequential queries through the real pipelined transport (more than one connection's id space): each gets its response",
+		"plus 65576 sequential queries through the real pipelined transport (more than one connection's id space): each gets its response; "+
+		"plus, on every seam with the memory cache on, a second client asking a cached question (other id, RD set / clear, same or other letter case): the same header rules for the response served from the cache",
 		seams, len(queries), c03Rules, c03Ups)
-	huge, longLived, many, pair := false, false, false, false
+	huge, longLived, many, pair, cached := false, false, false, false, false
 	if rp := report.ReplayFile(); rp != nil {
-		var x struct{ Huge, LongLived, Many, Pair bool }
+		var x struct{ Huge, LongLived, Many, Pair, Cached bool }
 		rp.Decode(&x)
-		huge, longLived, many, pair = x.Huge, x.LongLived, x.Many, x.Pair
+		huge, longLived, many, pair, cached = x.Huge, x.LongLived, x.Many, x.Pair, x.Cached
 	}
 	if os.Getenv("VERIF_PROP") == "C13" && report.ReplayFile() == nil {
 		st := runExplore(t, rep, -1, func(c *choice.Ctx) { c03LongLived(c, rep) })
 		rep.Count("executions_long_lived", st.Executions)
 		return
 	}
-	if !huge && !longLived && !many && !pair {
+	if cached || report.ReplayFile() == nil {
+		st := runExplore(t, rep, -1, func(c *choice.Ctx) { c03Cached(c, rep) })
+		rep.Count("executions_cached", st.Executions)
+	}
+	if !huge && !longLived && !many && !pair && !cached {
 		st := runExplore(t, rep, -1, func(c *choice.Ctx) { c03Scenario(c, rep, queries) })
 		rep.Count("executions", st.Executions)
 	}
